@@ -295,6 +295,26 @@ pub fn run_c05(opts: &Opts, out: &mut Emitter) {
             }
         }
     }
+    // the fee estimate itself, on payload lengths and protocol parameters from the edges of their types
+    for len in [0usize, 1, 200, 16_384] {
+        for a in [0u64, 1, 44, 1 << 32, u64::MAX / 200, u64::MAX / 200 + 1, u64::MAX] {
+            for b in [0u64, 155_381, u64::MAX - 200_000, u64::MAX] {
+                for extra in [None, Some(0u64), Some(1), Some(u64::MAX)] {
+                    out.case("size-fees", || {
+                        let payload = vec![0u8; len];
+                        let pp = store::pparams(false, a, b, 4310, true);
+                        let obs = match guarded(|| tx3_cardano::ops::eval_size_fees(&payload, &pp, extra)) {
+                            Ok(Ok(f)) => json!({"ok": f.to_string()}),
+                            Ok(Err(_)) => json!({"err": true}),
+                            Err(site) => json!({"panic": site}),
+                        };
+                        json!({"probe": "size-fees", "len": len, "a": a.to_string(), "b": b.to_string(),
+                               "margin": extra.unwrap_or(200_000).to_string(), "obs": obs})
+                    });
+                }
+            }
+        }
+    }
     for k in 0..opts.n {
         let kind = k % 5;
         let t = template(kind, (r.below(3)) as usize);
